@@ -432,6 +432,13 @@ func main() {
 	files = append(files, genMetrics(*repo))
 	files = append(files, genMain(*repo))
 
+	// Go → Lean translation of the whitelisted functions (translate.go).  Written even when a
+	// fact above could not be extracted: a stale Trans.lean must not survive a source change.
+	if err := genTrans(*repo, *out); err != nil {
+		fmt.Fprintln(os.Stderr, err)
+		os.Exit(2)
+	}
+
 	if len(errs) > 0 {
 		for _, e := range errs {
 			fmt.Fprintln(os.Stderr, "extract: "+e)
@@ -440,7 +447,7 @@ func main() {
 	}
 
 	// delete stale generated files, then write
-	want := map[string]bool{}
+	want := map[string]bool{"Trans.lean": true}
 	for _, f := range files {
 		want[f.name+".lean"] = true
 	}
@@ -530,6 +537,55 @@ func genAdvertise(repo string) *leanFile {
 			indexOf(calls, "a.schedule") >= 0 && indexOf(calls, "a.multicast") >= 0 &&
 				indexOf(calls, "l.Listen") >= 0 && indexOf(calls, "linkStateWatcher") >= 0,
 			"advertise() starts schedule, multicast, Listen, linkStateWatcher")
+	}
+
+	// every send on the request channel ipC (advertise's listener callback, multicast): is it a
+	// case of a select that also has a `<-ctx.Done()` case?
+	{
+		sites, guarded := 0, 0
+		isDone := func(cc *ast.CommClause) bool {
+			es, ok := cc.Comm.(*ast.ExprStmt)
+			if !ok {
+				return false
+			}
+			u, ok := es.X.(*ast.UnaryExpr)
+			return ok && u.Op == token.ARROW && exprString(u.X) == "ctx.Done()"
+		}
+		inSelect := map[*ast.SendStmt]bool{}
+		ast.Inspect(fl.f, func(n ast.Node) bool {
+			sel, ok := n.(*ast.SelectStmt)
+			if !ok {
+				return true
+			}
+			hasDone := false
+			for _, c := range sel.Body.List {
+				if cc, ok := c.(*ast.CommClause); ok && isDone(cc) {
+					hasDone = true
+				}
+			}
+			for _, c := range sel.Body.List {
+				if cc, ok := c.(*ast.CommClause); ok {
+					if snd, ok := cc.Comm.(*ast.SendStmt); ok && hasDone {
+						inSelect[snd] = true
+					}
+				}
+			}
+			return true
+		})
+		ast.Inspect(fl.f, func(n ast.Node) bool {
+			if snd, ok := n.(*ast.SendStmt); ok && exprString(snd.Chan) == "ipC" {
+				sites++
+				if inSelect[snd] {
+					guarded++
+				}
+			}
+			return true
+		})
+		if sites == 0 {
+			failf("advertise.go: no send on ipC found")
+		}
+		l.Nat("ipcSendSites", int64(sites), "number of `ipC <- …` send statements in advertise.go")
+		l.Bool("ipcSendsGuarded", sites > 0 && guarded == sites, "every send on ipC is a case of a select that also has `<-ctx.Done()`")
 	}
 
 	// buildRA: forwarding read from state and passed to RouterAdvertisement
